@@ -28,7 +28,7 @@ type access struct {
 func c20(c *Ctx) {
 	r := c.R
 	r.Explanation = "A static lockset / ownership analysis (Eraser's discipline decided on the source): for every guarded memory location of the IRC server, the output stream, the LevelDB store and the swapped pointers in api.HTTP (frozen lock table below), every read and write in the module is enumerated, the set of locks held on every path to it is computed by a forward data-flow over the statement-level CFG with entry locksets propagated over the call graph (intersection over call sites, registry handlers inherit ProcessMessage's write lock), and a write needs its lock in write mode, a read in read or write mode. Exemptions: construction (objects not yet published), fields never written after construction, and methods that never lock their receiver's mutex, whose obligation moves to their call sites (receiver unpublished or lock held). References to guarded memory that leave a critical section (returned pointers, shallow struct copies carrying maps) are judged at their uses. Type-level (not instance-level); lock order is reported as an observation only."
-	r.Rules = []string{"C20.Q1 lockset at every access", "C20.Q2 construction is private / call-site obligations", "C20.Q3 guarded references do not escape", "C20.Q4 lock order (observation)"}
+	r.Rules = []string{"C20.Q1 lockset at every access", "C20.Q2 construction is private / call-site obligations", "C20.Q3 guarded references do not escape", "C20.Q4 lock order (observation)", "C20.Q5 lock hygiene"}
 
 	// ---------- lock table
 	guard := map[*types.Var]string{} // field -> lock name
@@ -450,6 +450,13 @@ func c20(c *Ctx) {
 				owners[n] = true
 			}
 		}
+		// batches are shared between all readers through the cache of the output stream: their fields are protected by the
+		// stream's locks
+		lockOwner := map[*types.Named]string{}
+		if n := c.P.Named("outputstream", "messageBatch"); n != nil {
+			owners[n] = true
+			lockOwner[n] = "OutputStream"
+		}
 		nW := 0
 		for _, fi := range fns {
 			if isCtor[fi] || constructionOnly[fi] || fi.Body() == nil {
@@ -489,8 +496,12 @@ func c20(c *Ctx) {
 					held = flows[fi].must[v]
 				}
 				okW := false
+				ownerName := on.Obj().Name()
+				if lo, ok := lockOwner[on]; ok {
+					ownerName = lo
+				}
 				for lk, mode := range held {
-					if strings.HasPrefix(lk, on.Obj().Name()+".") && mode == "W" {
+					if strings.HasPrefix(lk, ownerName+".") && mode == "W" {
 						okW = true
 					}
 				}
@@ -825,6 +836,44 @@ func c20(c *Ctx) {
 		}
 	}
 
+	// ---------- Q3c: outside package ircserver a *Session is never dereferenced as a whole (`*s`): the pointer GetSession hands
+	// out is valid without the lock only for the fields its callers are known to read; copying the struct reads every
+	// field, including the maps, while the state machine writes them
+	{
+		sessT := c.P.Named("ircserver", "Session")
+		for _, fi := range c.P.AllFuncs {
+			if fi.Body() == nil || load.ShortPkg(fi.Pkg.PkgPath) == "ircserver" || !strings.HasPrefix(fi.Pkg.PkgPath, load.ModPath) {
+				continue
+			}
+			info := fi.Info()
+			ast.Inspect(fi.Body(), func(n ast.Node) bool {
+				st, ok := n.(*ast.StarExpr)
+				if !ok {
+					return true
+				}
+				if tv, ok := info.Types[st]; ok && tv.IsValue() && sessT != nil && astx.NamedOf(tv.Type) == sessT {
+					if _, isPtr := tv.Type.(*types.Pointer); !isPtr {
+						r.Fail("C20.Q3", fi.Name(), "a session is not copied through a pointer outside the IRC server", c.P.Pos(st.Pos()),
+							"a whole Session is read through a pointer obtained without (or after releasing) sessionsMu: the copy reads every field and shares the maps, while the state machine modifies them — use GetSessions(), which copies under the lock")
+					}
+				}
+				return true
+			})
+		}
+	}
+	// ---------- Q5 lock hygiene: the lock table above is only meaningful if what is acquired is released. For the packages
+	// whose methods run concurrently with the step (ircserver, api): every return releases what the function acquired, deferred
+	// and plain releases match what is held, no re-acquisition through a callee
+	for _, pkg := range []string{"ircserver", "api"} {
+		var ms []*load.FuncInfo
+		for _, fi := range c.P.FuncsIn(pkg) {
+			if fi.Body() != nil && fi.Obj != nil {
+				ms = append(ms, fi)
+			}
+		}
+		c.lockHygiene("C20.Q5", ms, "the next writer (the state machine applying an entry) blocks forever", "after which the state machine and every request block forever")
+	}
+	r.Floor("C20.Q5", 40)
 	// ---------- Q4 lock order (observation)
 	order := map[string]bool{}
 	for _, fi := range fns {
